@@ -5,6 +5,7 @@ import JediModel.Lemmas.ArgBind
 import JediModel.Lemmas.FlowCache
 import JediModel.Lemmas.ClassLookup
 import JediModel.Lemmas.SetIter
+import JediModel.Lemmas.YieldOrder
 /-! # C02 — Inferred types agree with what the program does when executed
 
 `evalC` is the concrete semantics of the PyCore fragment (validated against CPython on every
@@ -423,5 +424,60 @@ theorem iterate_zip_shortest_loses :
 example : zipLongest [[1], [2, 3], []] = [[1, 2], [3]] := by decide
 
 end SetIter
+
+/-! ## The order of a generator's element stream (`Model/YieldOrder`)
+
+`get_yield_lazy_values` groups the yields of a generator function (top-level yields, yields of a
+simple for statement) and emits group after group; tuple unpacking / indexing of the result reads
+the stream position by position. -/
+section YieldOrder
+open JediModel.YieldOrder
+
+/-- **The predicted stream is the run.**  For every generator body made of plain yields and simple
+for statements (each with at least one yield) in ANY interleaving, and whatever the number of
+elements each for statement iterates over: the function (grouping as read from the source) does
+not give up, and the stream it emits - which yield, in which iteration - is exactly the sequence
+of values the run of the generator yields.  `distinctFors` says that two for statements that
+follow each other are two statements (true of every syntax tree; forced, see
+`yield_order_same_for_id_witness`). -/
+theorem yield_order_is_run (len : Nat → Nat) (segs : List Seg) (h : distinctFors segs = true) :
+    order JediModel.Gen.C02.yieldGroupsKeyed len (parents segs) = some (run len segs) := by
+  have hk : JediModel.Gen.C02.yieldGroupsKeyed = false := rfl
+  rw [hk]
+  simp only [order, group, Bool.false_eq_true, if_false, groupAdj_parents segs h, Option.map_some,
+    emit_groups]
+
+/-- position by position: the `k`-th element jedi hands to the `k`-th target of an unpacking (or to
+index `k`) is the `k`-th value the run yields - and there are exactly as many. -/
+theorem yield_order_kth (len : Nat → Nat) (segs : List Seg) (h : distinctFors segs = true) :
+    ∃ out, order JediModel.Gen.C02.yieldGroupsKeyed len (parents segs) = some out ∧
+      out.length = (run len segs).length ∧ ∀ k : Nat, out[k]? = (run len segs)[k]? :=
+  ⟨_, yield_order_is_run len segs h, rfl, fun _ => rfl⟩
+
+example : distinctFors [.top 1, .loop 7 2 [3], .top 4, .loop 8 5 []] = true ∧
+    order JediModel.Gen.C02.yieldGroupsKeyed (fun _ => 2) (parents [.top 1, .loop 7 2 [3], .top 4, .loop 8 5 []]) =
+      some [(1, none), (2, some 0), (3, some 0), (2, some 1), (3, some 1), (4, none), (5, some 0), (5, some 1)] := by
+  decide
+
+/-- witness: with the groups keyed by the for statement (one dict entry for ALL top-level yields)
+`yield K1(); for x in (K2(), K3()): yield x; yield K4()` is emitted as K1, K4, K2, K3 - the second
+target of an unpacking gets K4 where the run gives K2. -/
+theorem yield_order_keyed_witness :
+    order true (fun _ => 2) (parents [.top 1, .loop 7 2 [], .top 3]) =
+      some [(1, none), (3, none), (2, some 0), (2, some 1)] ∧
+    run (fun _ => 2) [.top 1, .loop 7 2 [], .top 3] = [(1, none), (2, some 0), (2, some 1), (3, none)] := by
+  decide
+
+/-- witness for the hypothesis: were two consecutive loops the SAME statement, their yields would
+be one group. -/
+theorem yield_order_same_for_id_witness :
+    order false (fun _ => 2) (parents [.loop 1 1 [], .loop 1 2 []]) ≠
+      some (run (fun _ => 2) [.loop 1 1 [], .loop 1 2 []]) := by
+  decide
+
+/-- a yield behind an `if` / nested for: the order is given up (one merged value) -/
+example : order false (fun _ => 2) [(1, .top), (2, .other)] = none := by decide
+
+end YieldOrder
 
 end JediModel.Props.C02
